@@ -786,6 +786,8 @@ def role_shader(rng, big_arrays=True, entry_names=False, rename=None, multi=None
         add_aliases(S, rng)
     if rng.random() < 0.2:
         rng.shuffle(S["structs"])     # WGSL allows use before declaration
+    if rng.random() < 0.3:
+        S["decor"] = [d for d in ("diagnostic", "const_assert", "invariant", "interpolate") if rng.random() < 0.6]
     return S, has_rt
 
 
@@ -961,6 +963,10 @@ def rename_structs(S, rng):
         elif isinstance(t, list):
             for v in t:
                 fix(v)
+    import re as _re
+    for c_ in S.get("consts", []):
+        for a, b in mp.items():
+            c_["expr"] = _re.sub(r"\b%s\b" % _re.escape(a), b, c_["expr"])
     for d in S["structs"]:
         d["name"] = mp[d["name"]]
         fix(d["members"])
